@@ -79,6 +79,7 @@ type rules struct {
 	maxFault int
 	nFault   int
 	nPush    int
+	merged   bool
 	pending  []mdp.Fault // armed faults (absolute positions)
 	// per session (by UP SEID) URR data for C05's seqn isolation is in the server dump
 	recovery map[uint32]int // recovery time stamps seen (C08)
@@ -145,6 +146,12 @@ func (r *rules) liveK() []int {
 
 func (r *rules) Enabled() []seqx.Event {
 	var ev []seqx.Event
+	if r.merged {
+		// a session was taken over by an id under which another node is associated: the step itself was judged
+		// (isolation); what re-association and establishment under the merged id should mean afterwards is not
+		// settled by the property, so the history is not continued
+		return nil
+	}
 	for p := 0; p < 2; p++ {
 		ev = append(ev, seqx.Ev("Assoc", int64(p), int64(p)))
 	}
@@ -200,6 +207,16 @@ func (r *rules) Enabled() []seqx.Event {
 			if r.nPush < 3 {
 				ev = append(ev, seqx.Ev("Push", int64(k), 1))
 			}
+			// takeover by the id of the OTHER associated node (SMF-set takeover onto an existing association)
+			if s := r.R.Live[r.SeidOf(k)]; s != nil {
+				for q := 0; q < 2; q++ {
+					if id := r.W.PeerIP(q); id != s.Node {
+						if n, ok := r.R.Nodes[id]; ok && n.Peer == q {
+							ev = append(ev, seqx.Ev("TakeoverX", int64(k), int64(q)))
+						}
+					}
+				}
+			}
 			// takeover by a new node id (fresh: no association exists under it)
 			for t := 3; t <= 4; t++ {
 				if _, used := r.R.Nodes[r.W.PeerIP(t)]; !used {
@@ -238,7 +255,7 @@ func (r *rules) Key() string {
 	for _, f := range r.pendingFaults() {
 		fmt.Fprintf(&sb, " fault+%d/%v", f.At-r.W.D.FaultableCalls(), f.AfterEffect)
 	}
-	fmt.Fprintf(&sb, " nf=%d np=%d", r.nFault, r.nPush)
+	fmt.Fprintf(&sb, " nf=%d np=%d m=%v", r.nFault, r.nPush, r.merged)
 	// the reference's own memory (what was ever created) is part of the state the oracle depends on
 	for _, up := range r.R.LiveIDs() {
 		s := r.R.Live[up]
@@ -624,6 +641,21 @@ func (r *rules) Apply(e seqx.Event) seqx.StepResult {
 			j.Fail("push-lost", "buffered packet for session %s PDR %d is not at the tail of that queue", r.Label(up), e.A[1])
 		}
 		r.isolated(j, "buffer notification", before, after, touched, o)
+	case "TakeoverX":
+		k, q := int(e.A[0]), int(e.A[1])
+		up := r.SeidOf(k)
+		s := r.R.Live[up]
+		for x := range r.R.Nodes[s.Node].Sess {
+			touched[x] = true // re-keyed together with their node object
+		}
+		o = r.W.Send(s.Peer, smf.Mod(r.NextSeq(s.Peer), up, r.W.PeerIP(q)))
+		if j.Crashed(r.W, o) {
+			break
+		}
+		j.OnlyTo(o, s.Peer, "TakeoverX")
+		r.merged = true
+		r.isolated(j, "takeover onto an associated node id", before, r.snap(), touched, o)
+		j.Tag("takeover-onto-associated")
 	case "Takeover":
 		k, t := int(e.A[0]), int(e.A[1])
 		up := r.SeidOf(k)
@@ -747,5 +779,5 @@ func RunC01(tier string) {
 }
 
 func RunC05(tier string) {
-	runRules("C05", tier, "2 peers with colliding CP SEIDs and rule ids, <=2 (thorough 3) live sessions, modifications, deletion, re-association, SEID-0 report responses, buffered-packet pushes, takeover by a fresh node id, all histories to depth %d (completed %d)")
+	runRules("C05", tier, "2 peers with colliding CP SEIDs and rule ids, <=2 (thorough 3) live sessions, modifications, deletion, re-association, SEID-0 report responses, buffered-packet pushes, takeover by a fresh node id and (terminal step) by the id of the other associated node, all histories to depth %d (completed %d)")
 }
